@@ -409,6 +409,7 @@ def doOp (env : Array Dec) (c : Ctx) (toks : List String) : Step :=
   | ["sign", x] => convOp env "sign" x
   | ["bitsexp", x] => bitsExpOp env x
   | ["rat", x] => ratOp env x
+  | ["rat", x, _preset] => ratOp env x
   | ["cnew", p, m] =>
     match p.toNat?, m.toNat? >>= Mode.ofNat? with
     | some p, some m => let c' := Ctx.new p m; { env := env, ctx := some c', extra := pm c', tags := ["cnew"] }
